@@ -239,7 +239,13 @@ def run_tree(det, alpha, depth):
     return out
 
 
+_OBS_CACHE = {}   # id(case) -> observation recorded while the generator executed this very history on the implementation
+
+
 def run_impl(case):
+    hit = _OBS_CACHE.pop(id(case), None)
+    if hit is not None and hit[0] is case:
+        return hit[1]
     det = make(case["cfg"])
     res = {"start": observe(det), "edges": []}
     for op in case["ops"]:
@@ -695,12 +701,13 @@ def trees(ctx):
         ("A", [U1, U0, LC, LN, LI, LIW], 4 if q else 5),
         ("B", [U1, U0, LC, LW, LI], 5 if q else 7),
         ("C", [U1, U0, UH, LN, LW, LI], 4 if q else 5),
-        ("D", [U1, U0, LC, LW], 6 if q else 8),
+        ("D", [U1, U0, LC, LW], 5 if q else 8),
+        ("D", [U1, LC, LW], 7 if q else 9),
         ("A", [U1, LC, LW, lmode("perm", LW), lmode("missing"), lmode("extra"), lmode("rows2"), ["un", 2]], 3 if q else 5),
-        ("B", [U1, U0, LW, lmode("perm", LN), lmode("rows0"), ["un", 0], SREF], 4 if q else 5),
-        ("A", [U1, U0, LC, LW, SREN, SREF], 4 if q else 5),
-        ("E", [U1, U0, LC, LW], 5 if q else 7),
-        ("F", [U1, U0, LC, LW], 4 if q else 6),
+        ("B", [U1, U0, LW, lmode("perm", LN), lmode("rows0"), ["un", 0], SREF], 3 if q else 5),
+        ("A", [U1, U0, LC, LW, SREN, SREF], 3 if q else 5),
+        ("E", [U1, U0, LC, LW], 4 if q else 7),
+        ("F", [U1, U0, LC, LW], 3 if q else 6),
     ]
     cases = []
     for name, alpha, depth in plan:
@@ -709,7 +716,7 @@ def trees(ctx):
         for pre in itertools.product(alpha, repeat=split):
             cases.append({"family": "tree", "cfg": CFG[name], "ops": [list(o) for o in pre],
                           "tree": {"alpha": alpha, "depth": depth - split}})
-        ctx.stats[f"tree_{name}_alphabet{len(alpha)}_depth{depth}"] = len(alpha) ** depth
+        ctx.stats[f"tree{len(ctx.stats)}_config{name}_alphabet{len(alpha)}_depth{depth}_words"] = len(alpha) ** depth
     return cases
 
 
@@ -759,6 +766,7 @@ def random_history(ctx, svc=False):
     pattern = None
     names = ("a", "b", "y")
     det = make(cfg)                          # the implementation tells the generator the phase (two-pass generation)
+    rec = {"start": observe(det), "edges": [], "tree": []}
     length = rng.randint(20, ctx.scale(120, 250))
     for _ in range(length):
         r = rng.random()
@@ -796,19 +804,23 @@ def random_history(ctx, svc=False):
         if skip_call(det, op):
             continue
         e = apply_call(det, op)
-        ops.append(op)
+        ops.append(op); rec["edges"].append(e)
         if e["code"] in (5, 6, 9) and svc:
             return None
         waiting, collected = e["wait"], e["nrows"]
         if e["code"] == 0 and op[0] == "l" and not e["wait"]:
             pcorrect = rng.choice([0.2, 0.5, 0.9])
-    return {"family": "svc" if svc else "random", "cfg": cfg, "ops": ops, "tree": None}
+    case = {"family": "svc" if svc else "random", "cfg": cfg, "ops": ops, "tree": None}
+    rec["ops"] = list(ops)
+    _OBS_CACHE[id(case)] = (case, rec)     # run_impl would repeat exactly these calls; replay / shrinking re-execute
+    return case
 
 
 def two_pass(ctx, case):
     """set the sensitivity to exactly level / std for a level the history attained (strict-comparison ties), for the
     warning test (|md - md_ref| vs md_std) or the confirmation test (acc_ref - acc vs acc_std)"""
-    obs = run_impl(case)
+    hit = _OBS_CACHE.get(id(case))
+    obs = hit[1] if hit is not None and hit[0] is case else run_impl(case)
     cfg = case["cfg"]
     cands = []
     prev, rows = obs["start"], []
@@ -831,20 +843,20 @@ def two_pass(ctx, case):
 
 
 def gen_cases(ctx):
-    STATS.clear()
+    STATS.clear(); _OBS_CACHE.clear()
     cases = trees(ctx)
     rnd = []
-    for _ in range(ctx.scale(40, 500)):
+    for _ in range(ctx.scale(30, 500)):
         c = random_history(ctx)
         if c:
             rnd.append(c)
     nsvc = 0
-    for _ in range(ctx.scale(10, 80)):
+    for _ in range(ctx.scale(8, 80)):
         c = random_history(ctx, svc=True)
         if c:
             rnd.append(c); nsvc += 1
     tp = 0
-    for c in list(rnd[: ctx.scale(25, 250)]):
+    for c in list(rnd[: ctx.scale(15, 250)]):
         if c["cfg"]["clf"] == "thr":
             c2 = two_pass(ctx, c)
             if c2:
